@@ -226,8 +226,17 @@ def run_rules(pid, tier, seed, fams, per_family_quick, level_rule, assumptions, 
                   (k, len(grp[k]), ex["s"], ex["s2"], ex["s3"], ex["argnum"], ex["ax"], ex["kd"], ex["ia"], ex["ib"], ex["tp"], ex["st"], ex["scal"]))
     raised = {"vjp": sum(1 for r in flat if r["vjp_raised"]), "jvp": sum(1 for r in flat if r["jvp_raised"])}
     prim_cov = {}
+    prim_raise = {}
     for o in ok:
-        prim_cov[o["cfg"]["prim"]] = prim_cov.get(o["cfg"]["prim"], 0) + 1
+        pn = o["cfg"]["prim"]
+        prim_cov[pn] = prim_cov.get(pn, 0) + 1
+        pr_ = prim_raise.setdefault(pn, {"n": 0, "vjp_raised": 0, "jvp_raised": 0, "exc": {}})
+        pr_["n"] += 1
+        for md in ("vjp", "jvp"):
+            if o[md]["raised"]:
+                pr_[md + "_raised"] += 1
+                pr_["exc"][md + ":" + o[md]["raised"]] = pr_["exc"].get(md + ":" + o[md]["raised"], 0) + 1
+    always = {k: v["exc"] for k, v in prim_raise.items() if v["n"] >= 3 and v["vjp_raised"] == v["n"]}
     distinct = len({json.dumps({k: v for k, v in o["cfg"].items() if k != "id"}, sort_keys=True) for o in ok
                     if not (o["vjp"]["raised"] and o["jvp"]["raised"])})
     s = [ok[0], ok[len(ok) // 2], ok[-1]] if ok else []
@@ -237,6 +246,7 @@ def run_rules(pid, tier, seed, fams, per_family_quick, level_rule, assumptions, 
         "rule": level_rule, "families": notes, "not_evaluated": skipped, "calls_that_raised": raised,
         "exact_tier": sum(1 for o in ok if o.get("exact")), "projection_tier": sum(1 for o in ok if not o.get("exact")),
         "primitives_covered": len(prim_cov), "per_primitive": prim_cov,
+        "primitives_whose_every_reverse_call_raised": always,
         "observations_rejected_by_contract": nviol, "known_findings_reobserved": verdict.known_hits,
         "exhaustive": not quick,
         "samples": [{"cfg": o["cfg"], "in": o["in"], "out": o["out"], "vjp": {k: o["vjp"][k] for k in ("raised", "nbad", "struct")},
